@@ -29,12 +29,13 @@ theorem step_load_ok {s : State} {f into : String} {dir : Option PPath} {d : Doc
     step s (.load f dir into) = ({ s with objs := put s.objs into c }, .recs (recPaths c)) := by
   simp only [step, hf, hl]
 
-/-- the content of a file changes only through a successful save to that very file, and then it is
-    exactly the document of that save -/
+/-- the content of a cell changes only through a successful save to that very cell, and then it is
+    exactly the document of that save — or through a copy into it, and then it is the source's document -/
 theorem file_changes (s : State) (st : Step) (f : String) :
     get (step s st).1.files f = get s.files f ∨
-    ∃ k dir c d, st = .save k f dir ∧ get s.objs k = some c ∧ Aoef.save c dir = .ok d ∧
-      get (step s st).1.files f = some d := by
+    (∃ k dir c d, st = .save k f dir ∧ get s.objs k = some c ∧ Aoef.save c dir = .ok d ∧
+      get (step s st).1.files f = some d) ∨
+    (∃ src d, st = .copy src f ∧ get s.files src = some d ∧ get (step s st).1.files f = some d) := by
   cases st with
   | put k c => exact .inl rfl
   | move k src dst =>
@@ -52,7 +53,7 @@ theorem file_changes (s : State) (st : Step) (f : String) :
         rw [step_save_ok hk hd]
         by_cases hg : g = f
         · subst hg
-          exact .inr ⟨k, dir, c, d, rfl, hk, hd, get_put_same _ _ _⟩
+          exact .inr (.inl ⟨k, dir, c, d, rfl, hk, hd, get_put_same _ _ _⟩)
         · exact .inl (get_put_other _ _ (Ne.symm hg))
   | load g dir into =>
     left
@@ -62,21 +63,38 @@ theorem file_changes (s : State) (st : Step) (f : String) :
       cases hl : Aoef.load d dir with
       | error e => simp only [step, hf, hl]
       | ok c => simp only [step, hf, hl]
+  | copy src g =>
+    cases hs : get s.files src with
+    | none => left; simp only [step, hs]
+    | some d =>
+      have hstep : step s (.copy src g) = ({ s with files := put s.files g d }, .stored (storedOf d)) := by
+        simp only [step, hs]
+      rw [hstep]
+      by_cases hg : g = f
+      · subst hg
+        exact .inr (.inr ⟨src, d, rfl, hs, get_put_same _ _ _⟩)
+      · exact .inl (get_put_other _ _ (Ne.symm hg))
   | skip => exact .inl rfl
 
-/-- steps that are not saves to `f` leave `f` as it is -/
+/-- steps that do not write to `f` (no save to it, no copy into it) leave `f` as it is -/
 theorem frame (f : String) (steps : List Step) (s : State) (h : ∀ st ∈ steps, st.savesTo f = false) :
     get (after s steps).files f = get s.files f := by
   induction steps generalizing s with
   | nil => rfl
   | cons st rest ih =>
     have h1 : get (step s st).1.files f = get s.files f := by
-      rcases file_changes s st f with h1 | ⟨k, dir, c, d, rfl, _⟩
+      rcases file_changes s st f with h1 | ⟨k, dir, c, d, rfl, _⟩ | ⟨src, d, rfl, _⟩
       · exact h1
+      · have := h _ List.mem_cons_self
+        simp [Step.savesTo] at this
       · have := h _ List.mem_cons_self
         simp [Step.savesTo] at this
     show get (after (step s st).1 rest).files f = _
     rw [ih _ (fun x hx => h x (List.mem_cons_of_mem _ hx)), h1]
+
+theorem step_copy_ok {s : State} {src dst : String} {d : Doc} (hs : get s.files src = some d) :
+    step s (.copy src dst) = ({ s with files := put s.files dst d }, .stored (storedOf d)) := by
+  simp only [step, hs]
 
 theorem run_cons (s : State) (st : Step) (rest : List Step) :
     run s (st :: rest) = (step s st).2 :: run (step s st).1 rest := rfl
